@@ -3,6 +3,7 @@
 From SV Require Import Model.PeakHelpers Spec.PeakHelpersSpec Proof.PeakHelpersProof.
 From SV Require Import Model.Peaks Spec.PeaksSpec Proof.PeaksProof Proof.PeaksTheorems Proof.PeaksExamples.
 From SV Require Import Model.Merging Spec.MergingSpec Proof.ReplaceMergedProof Proof.MergePeaksProof.
+From SV Require Import Proof.ReplaceMergedSorted.
 From SV Require Import Model.PeakProps Spec.PeakPropsSpec Proof.PeakPropsProof.
 From SV Require Import Model.Splitting Proof.SplittingProof.
 From SV Require Import Model.SumWaveform Proof.SumWaveformProof.
@@ -89,6 +90,15 @@ Theorem C19_replace_merged_keeps_rest : forall (T : Type) (orig : list T) mw,
   wchain (zlen orig) 0 mw -> replace_merged orig mw = Ok (rm_spec orig 0 mw).
 Proof. exact @replace_merged_spec. Qed.
 Print Assumptions C19_replace_merged_keeps_rest.
+
+(* ... and ordered: if the originals and the merged peaks are ordered by the key (time) and every
+   merged peak lies after the originals before its window and before those from its window's end on
+   (what touching windows of disjoint intervals give), the result is ordered by the key *)
+Theorem C19_replace_merged_ordered : forall (T : Type) (key : T -> Z) (orig : list T) mw out,
+  wchain (zlen orig) 0 mw -> ksorted key orig -> win_ordered key orig mw -> merge_sorted key mw ->
+  replace_merged orig mw = Ok out -> ksorted key out.
+Proof. exact @replace_merged_sorted. Qed.
+Print Assumptions C19_replace_merged_ordered.
 
 (* _merge_peaks: each merged peak adds areas, hit counts and per-channel areas, starts at the
    first start, reports the last end, never extends beyond it (and ends less than two of its
